@@ -51,7 +51,7 @@ def _case(draw):
         c["img"] = draw(st.booleans())
         c["hw"] = draw(st.sampled_from([[2, 2], [1, 3], [3, 2]]))
     else:
-        c["momentum"] = draw(st.sampled_from([0.1, 0.5, 0.9, 0.01]))
+        c["momentum"] = draw(st.sampled_from([0.1, 0.5, 0.9, 0.01, 0.0, 1.0]))     # boundary values: statistics frozen / replaced
         c["eps"] = draw(st.sampled_from([1e-5, 1e-3]))
     return c
 
